@@ -91,4 +91,297 @@ theorem tok_cons (t : List Char) (h : Tok t) : ∃ c tl, t = c :: tl ∧ Py.isSp
   | nil => exact absurd rfl hne
   | cons c tl => exact ⟨c, tl, rfl, hns c (by simp)⟩
 
+theorem takeWhile_nospace (d rest : List Char) (h : ∀ c ∈ d, Py.isSpace c = false) :
+    (d ++ ' ' :: rest).takeWhile (fun c => !Py.isSpace c) = d := by
+  induction d with
+  | nil => simp [isSpace_space]
+  | cons c t ih =>
+    have hc : Py.isSpace c = false := h c (by simp)
+    simp only [List.cons_append, List.takeWhile_cons, hc, Bool.not_false, ↓reduceIte]
+    rw [ih (fun c' hc' => h c' (by simp [hc']))]
+
+theorem dropWhile_nospace (d rest : List Char) (h : ∀ c ∈ d, Py.isSpace c = false) :
+    (d ++ ' ' :: rest).dropWhile (fun c => !Py.isSpace c) = ' ' :: rest := by
+  induction d with
+  | nil => simp [isSpace_space]
+  | cons c t ih =>
+    have hc : Py.isSpace c = false := h c (by simp)
+    simp only [List.cons_append, List.dropWhile_cons, hc, Bool.not_false, ↓reduceIte]
+    rw [ih (fun c' hc' => h c' (by simp [hc']))]
+
+/-- a line `d body` whose directive has no blanks and whose body neither starts nor ends with one -/
+structure LineShape (d body : List Char) : Prop where
+  dTok : Tok d
+  bodyHead : ∃ c tl, body = c :: tl ∧ Py.isSpace c = false
+  bodyLast : ∃ pre c, body = pre ++ [c] ∧ Py.isSpace c = false
+
+theorem strip_line (d body : List Char) (h : LineShape d body) :
+    Py.strip (String.ofList (d ++ ' ' :: body)) = String.ofList (d ++ ' ' :: body) := by
+  obtain ⟨c0, d', hd, hc0⟩ := tok_cons d h.dTok
+  obtain ⟨pre, cl, hb, hcl⟩ := h.bodyLast
+  unfold Py.strip Py.stripL
+  simp only [String.toList_ofList]
+  subst hd
+  rw [List.cons_append, lstripL_head_nonspace _ _ hc0]
+  have : c0 :: (d' ++ ' ' :: body) = (c0 :: (d' ++ ' ' :: pre)) ++ [cl] := by simp [hb]
+  rw [this, rstripL_snoc_nonspace _ _ hcl]
+
+theorem strip_body (body : List Char)
+    (hh : ∃ c tl, body = c :: tl ∧ Py.isSpace c = false) (hl : ∃ pre c, body = pre ++ [c] ∧ Py.isSpace c = false) :
+    Py.strip (String.ofList body) = String.ofList body := by
+  obtain ⟨c0, tl, hb0, hc0⟩ := hh
+  obtain ⟨pre, cl, hb, hcl⟩ := hl
+  unfold Py.strip Py.stripL
+  simp only [String.toList_ofList]
+  rw [hb0, lstripL_head_nonspace _ _ hc0, ← hb0, hb, rstripL_snoc_nonspace _ _ hcl]
+
+theorem split1_line (d body : List Char) (h : LineShape d body) :
+    Py.split1 (String.ofList (d ++ ' ' :: body)) = [String.ofList d, String.ofList body] := by
+  obtain ⟨c0, d', hd, hc0⟩ := tok_cons d h.dTok
+  obtain ⟨b0, btl, hb, hb0⟩ := h.bodyHead
+  unfold Py.split1
+  simp only [String.toList_ofList]
+  have hl : Py.lstripL Py.isSpace (d ++ ' ' :: body) = d ++ ' ' :: body := by
+    subst hd; rw [List.cons_append, lstripL_head_nonspace _ _ hc0]
+  rw [hl, takeWhile_nospace d body h.dTok.2, dropWhile_nospace d body h.dTok.2]
+  have hne : (d ++ ' ' :: body).isEmpty = false := by subst hd; simp
+  have hrest : Py.lstripL Py.isSpace (' ' :: body) = body := by
+    rw [Py.lstripL]; simp only [isSpace_space, ↓reduceIte]
+    rw [hb, lstripL_head_nonspace _ _ hb0]
+  have hbne : body.isEmpty = false := by rw [hb]; simp
+  simp [hne, hrest, hbne]
+
+/-! ### the writer -/
+
+def msgPart : Option (List Char) → List Char
+  | none => []
+  | some m => [' ', '"'] ++ escapeL m ++ ['"']
+
+def anchorPart (ex : Bool) : List Char := if ex then [' ', '|'] else []
+
+/-- the rule line a writer produces: directive, pattern tokens, ` |` when exact, quoted message -/
+def renderLine (d : String) (ts : List (List Char)) (ex : Bool) (m : Option (List Char)) : String :=
+  String.ofList (d.toList ++ ' ' :: (joinL ts ++ anchorPart ex ++ msgPart m))
+
+/-- well-formed pattern: at least one token, tokens non-empty and blank-free; when the rule is not
+    exact the pattern does not itself end in the anchor `|`, and when there is neither anchor nor
+    message it does not end in `"` (which would read as the end of a message) -/
+structure WfPat (ts : List (List Char)) (ex : Bool) (m : Option (List Char)) : Prop where
+  ne : ts ≠ []
+  toks : ∀ t ∈ ts, Tok t
+  noBar : ex = false → ∀ pre c, joinL ts = pre ++ [c] → c ≠ '|'
+  noQuote : ex = false → m = none → ∀ pre c, joinL ts = pre ++ [c] → c ≠ '"'
+
+/-- the decidable form of `WfPat` (what the correspondence harness evaluates) -/
+def wfPatB (ts : List (List Char)) (ex : Bool) (m : Option (List Char)) : Bool :=
+  !ts.isEmpty && ts.all (fun t => !t.isEmpty && t.all (fun c => !Py.isSpace c))
+    && (ex || (joinL ts).getLast? != some '|')
+    && (ex || m.isSome || (joinL ts).getLast? != some '"')
+
+theorem wfPatB_sound (ts : List (List Char)) (ex : Bool) (m : Option (List Char)) (h : wfPatB ts ex m = true) :
+    WfPat ts ex m := by
+  unfold wfPatB at h
+  simp only [Bool.and_eq_true, Bool.not_eq_true', List.all_eq_true, Bool.or_eq_true, bne_iff_ne, ne_eq] at h
+  obtain ⟨⟨⟨h1, h2⟩, h3⟩, h4⟩ := h
+  refine ⟨?_, ?_, ?_, ?_⟩
+  · intro hh; subst hh; simp at h1
+  · intro t ht
+    have := h2 t ht
+    refine ⟨?_, ?_⟩
+    · intro hh; subst hh; simp at this
+    · intro c hc; simpa using this.2 c hc
+  · intro hex pre c hj hc
+    subst hex; subst hc
+    rcases h3 with h3 | h3
+    · cases h3
+    · apply h3; rw [hj]; simp
+  · intro hex hm pre c hj hc
+    subst hex; subst hm; subst hc
+    rcases h4 with (h4 | h4) | h4
+    · cases h4
+    · cases h4
+    · apply h4; rw [hj]; simp
+
+theorem joinL_shape (ts : List (List Char)) (hne : ts ≠ []) (ht : ∀ t ∈ ts, Tok t) :
+    (∃ c tl, joinL ts = c :: tl ∧ Py.isSpace c = false) ∧ (∃ pre c, joinL ts = pre ++ [c] ∧ Py.isSpace c = false) := by
+  constructor
+  · cases ts with
+    | nil => exact absurd rfl hne
+    | cons x r =>
+      obtain ⟨tl, htl⟩ := joinL_head x r
+      obtain ⟨c, xt, hx, hc⟩ := tok_cons x (ht x (by simp))
+      exact ⟨c, xt ++ tl, by rw [htl, hx]; simp, hc⟩
+  · obtain ⟨pre, hp⟩ := joinL_last ts hne
+    obtain ⟨p2, c, hl, hc⟩ := tok_snoc _ (ht _ (List.getLast_mem hne))
+    exact ⟨pre ++ p2, c, by rw [hp, hl]; simp, hc⟩
+
+theorem rstripL_nonspace_last (x : List Char) (h : ∃ pre c, x = pre ++ [c] ∧ Py.isSpace c = false) :
+    Py.rstripL Py.isSpace x = x := by
+  obtain ⟨pre, c, hx, hc⟩ := h
+  rw [hx, rstripL_snoc_nonspace _ _ hc]
+
+/-- the body (pattern, anchor, message) starts and ends with a non-blank -/
+theorem body_shape (ts : List (List Char)) (ex : Bool) (m : Option (List Char)) (hne : ts ≠ []) (ht : ∀ t ∈ ts, Tok t) :
+    (∃ c tl, joinL ts ++ anchorPart ex ++ msgPart m = c :: tl ∧ Py.isSpace c = false)
+      ∧ (∃ pre c, joinL ts ++ anchorPart ex ++ msgPart m = pre ++ [c] ∧ Py.isSpace c = false) := by
+  obtain ⟨⟨c, tl, h1, hc⟩, ⟨pre, cl, h2, hcl⟩⟩ := joinL_shape ts hne ht
+  constructor
+  · exact ⟨c, tl ++ anchorPart ex ++ msgPart m, by rw [h1]; simp, hc⟩
+  · cases m with
+    | some mm =>
+      refine ⟨joinL ts ++ anchorPart ex ++ [' ', '"'] ++ escapeL mm, '"', by simp [msgPart], isSpace_quote⟩
+    | none =>
+      cases ex with
+      | true => exact ⟨joinL ts ++ [' '], '|', by simp [msgPart, anchorPart], by decide⟩
+      | false => exact ⟨pre, cl, by simp [msgPart, anchorPart, h2], hcl⟩
+
+/-- `_extract_message` on the body: the pattern with its anchor, and the message -/
+theorem extract_body (ts : List (List Char)) (ex : Bool) (m : Option (List Char)) (h : WfPat ts ex m) :
+    extractMessage (String.ofList (joinL ts ++ anchorPart ex ++ msgPart m))
+      = .ok (String.ofList (joinL ts ++ anchorPart ex)) (m.map String.ofList) := by
+  have hsh := (body_shape ts ex none h.ne h.toks).2
+  simp only [msgPart, List.append_nil] at hsh
+  cases m with
+  | some mm =>
+    have := extract_render (joinL ts ++ anchorPart ex) mm
+      (by obtain ⟨pre, c, hx, _⟩ := hsh; rw [hx]; simp) (rstripL_nonspace_last _ hsh)
+    simpa [msgPart, List.append_assoc] using this
+  | none =>
+    obtain ⟨pre, c, hx, hc⟩ := hsh
+    have hcq : c ≠ '"' := by
+      cases ex with
+      | true =>
+        have : joinL ts ++ [' ', '|'] = (joinL ts ++ [' ']) ++ ['|'] := by simp
+        simp only [anchorPart, ↓reduceIte] at hx
+        rw [this] at hx
+        have := List.append_inj' hx rfl
+        have hc' : c = '|' := by simpa using this.2.symm
+        rw [hc']; decide
+      | false =>
+        simp only [anchorPart, Bool.false_eq_true, ↓reduceIte, List.append_nil] at hx
+        exact h.noQuote rfl rfl pre c hx
+    unfold extractMessage
+    simp only [msgPart, List.append_nil, String.toList_ofList, Option.map_none]
+    rw [rstripL_nonspace_last _ ⟨pre, c, hx, hc⟩, hx]
+    simp only [List.reverse_append, List.reverse_cons, List.reverse_nil, List.nil_append, List.singleton_append]
+    split
+    · rename_i heq
+      have : c = '"' := by
+        have := congrArg List.head? heq
+        simpa using this
+      exact absurd this hcq
+    · rfl
+
+/-- `_strip_exact_anchor` on pattern + anchor -/
+theorem anchor_body (ts : List (List Char)) (ex : Bool) (m : Option (List Char)) (h : WfPat ts ex m) :
+    stripExactAnchor (String.ofList (joinL ts ++ anchorPart ex)) = (String.ofList (joinL ts), ex) := by
+  have hsh := (joinL_shape ts h.ne h.toks).2
+  unfold stripExactAnchor Py.endsWith
+  cases ex with
+  | true =>
+    have hsuf : ("|".toList).isSuffixOf (joinL ts ++ anchorPart true) = true := by
+      show (['|'] : List Char).isSuffixOf (joinL ts ++ anchorPart true) = true
+      rw [List.isSuffixOf_iff_suffix]
+      exact ⟨joinL ts ++ [' '], by simp [anchorPart]⟩
+    simp only [String.toList_ofList, hsuf, ↓reduceIte, Prod.mk.injEq, and_true]
+    have hd : (joinL ts ++ anchorPart true).dropLast = joinL ts ++ [' '] := by
+      have : joinL ts ++ anchorPart true = (joinL ts ++ [' ']) ++ ['|'] := by simp [anchorPart]
+      rw [this, List.dropLast_concat]
+    rw [hd]
+    unfold Py.rstrip
+    simp only [String.toList_ofList]
+    rw [rstripL_snoc_space, rstripL_nonspace_last _ hsh]
+  | false =>
+    obtain ⟨pre, c, hx, hc⟩ := hsh
+    have hbar := h.noBar rfl pre c hx
+    have hsuf : ("|".toList).isSuffixOf (joinL ts ++ anchorPart false) = false := by
+      simp only [anchorPart, Bool.false_eq_true, ↓reduceIte, List.append_nil, hx]
+      have : "|".toList = ['|'] := rfl
+      rw [this]
+      rw [Bool.eq_false_iff]
+      intro hh
+      rw [List.isSuffixOf_iff_suffix] at hh
+      obtain ⟨t, ht⟩ := hh
+      have := List.append_inj' ht rfl
+      exact hbar (by simpa using this.2.symm)
+    simp only [anchorPart, Bool.false_eq_true, ↓reduceIte, List.append_nil] at hsuf
+    simp only [String.toList_ofList, anchorPart, Bool.false_eq_true, ↓reduceIte, List.append_nil, hsuf]
+
+theorem anchor_body_none (ts : List (List Char)) (ex : Bool) (h : WfPat ts ex none) :
+    stripExactAnchor (String.ofList (joinL ts ++ anchorPart ex ++ msgPart none)) = (String.ofList (joinL ts), ex) := by
+  simpa [msgPart] using anchor_body ts ex none h
+
+theorem tildes_join (pe : PathEnv) (ts : List (List Char)) (h : ∀ t ∈ ts, Tok t) :
+    expandPatternTildes pe (String.ofList (joinL ts))
+      = Py.joinSpace ((ts.map String.ofList).map (expandHomeOnly pe)) := by
+  unfold expandPatternTildes Py.splitWs
+  simp only [String.toList_ofList]
+  rw [splitWsAux_join ts h]
+
+theorem lineShape (d : List Char) (hd : Tok d) (ts : List (List Char)) (ex : Bool) (m : Option (List Char))
+    (h : WfPat ts ex m) : LineShape d (joinL ts ++ anchorPart ex ++ msgPart m) :=
+  ⟨hd, (body_shape ts ex m h.ne h.toks).1, (body_shape ts ex m h.ne h.toks).2⟩
+
+theorem body_nonempty (ts : List (List Char)) (ex : Bool) (m : Option (List Char)) (h : WfPat ts ex m) :
+    (String.ofList (joinL ts ++ anchorPart ex ++ msgPart m)).isEmpty = false := by
+  obtain ⟨c, tl, hx, _⟩ := (body_shape ts ex m h.ne h.toks).1
+  rw [hx]; simp
+
+/-- `" ".join` of the tokens as strings is the joined character list -/
+theorem joinSpace_ofList (ts : List (List Char)) : Py.joinSpace (ts.map String.ofList) = String.ofList (joinL ts) := by
+  apply String.toList_inj.mp
+  unfold Py.joinSpace
+  rw [String.toList_intercalate]
+  simp only [List.map_map, String.toList_ofList]
+  have : (List.map (String.toList ∘ String.ofList) ts) = ts := by
+    induction ts with
+    | nil => rfl
+    | cons x r ih => simp [ih]
+  rw [this]
+  clear this
+  induction ts with
+  | nil => rfl
+  | cons x r ih =>
+    cases r with
+    | nil => simp [joinL, List.intercalate]
+    | cons y r' =>
+      rw [joinL_cons_cons, ← ih]
+      simp [List.intercalate, List.intersperse]
+
+/-- a token that is not `~` / `~/…` is left alone by the parse-time tilde expansion -/
+theorem expandHomeOnly_id (pe : PathEnv) (t : String) (h : Py.startsWith t "~" = false) : expandHomeOnly pe t = t := by
+  unfold expandHomeOnly classifyToken
+  have h1 : (t == "~") = false := by
+    rw [beq_eq_false_iff_ne]; intro hh; subst hh; simp [Py.startsWith] at h
+  have h2 : Py.startsWith t "~/" = false := by
+    unfold Py.startsWith at h ⊢
+    rw [Bool.eq_false_iff] at h ⊢
+    intro hh; apply h
+    rw [List.isPrefixOf_iff_prefix] at hh ⊢
+    obtain ⟨r, hr⟩ := hh
+    exact ⟨'/' :: r, by rw [← hr]; rfl⟩
+  simp only [h, h1, h2]
+  have hne : ∀ k : TokKind, (k = .url ∨ k = .variable ∨ k = .absolute ∨ k = .userHome ∨ k = .relative ∨ k = .bare) → k ≠ .home := by
+    intro k hk hh; subst hh; simp at hk
+  have : (if (Py.containsSub t "://" && !false) = true then TokKind.url
+      else if Py.startsWith t "$" = true then TokKind.variable
+      else if Py.startsWith t "/" = true then TokKind.absolute
+      else if (false || false) = true then TokKind.home
+      else if false = true then TokKind.userHome
+      else if (t == "." || t == ".." || Py.startsWith t "./" || Py.startsWith t "../" || Py.hasChar t '/') = true then TokKind.relative
+      else TokKind.bare) ≠ TokKind.home := by
+    apply hne
+    split
+    · simp
+    · split
+      · simp
+      · split
+        · simp
+        · split
+          · simp_all
+          · split
+            · simp_all
+            · split <;> simp
+  simp only [this, ↓reduceIte]
+
 end Dippy.RT
